@@ -54,7 +54,7 @@ package server
 
 //@ spec func dbOK(d ref) bool = d != nil && d.Records != nil && recsOK(d.Records)
 //@ spec func dbsOK(s ref) bool = s != nil && (forall k iface :: sm_dom[&s.Map][k] ==> typeis(sm_val[&s.Map][k], "*server.Database") && dbOK(unbox(sm_val[&s.Map][k], "*server.Database")))
-//@ spec func srvOK(s ref) bool = s != nil && s.Databases != nil && dbsOK(s.Databases)
+//@ spec func storeOK(s ref) bool = s != nil && s.Databases != nil && dbsOK(s.Databases)
 //@ spec func dbOf(s ref, id int) ref = unbox(sm_val[&s.Databases.Map][iface(id)], "*server.Database")
 
 //@ func NewRecords
@@ -78,9 +78,9 @@ package server
 //@ ensures {C18} !result1 ==> result0 == nil
 
 //@ func (*Server).GetDatabase
-//@ requires {C18} srvOK(server)
+//@ requires {C18} storeOK(server)
 //@ assigns sm_dom[&server.Databases.Map], sm_val[&server.Databases.Map]
-//@ ensures {C18} err == nil && dbOK(result0) && srvOK(server)
+//@ ensures {C18} err == nil && dbOK(result0) && storeOK(server)
 //@ ensures {C18} sm_dom[&server.Databases.Map][iface(id)] && result0 == dbOf(server, id)
 //@ ensures {C18} old(sm_dom[&server.Databases.Map][iface(id)]) ==> result0 == old(dbOf(server, id))
 //@ ensures {C18} !old(sm_dom[&server.Databases.Map][iface(id)]) ==> fresh(result0) && fresh(result0.Records) && (forall k iface :: !sm_dom[&result0.Records.Map][k])
@@ -94,9 +94,9 @@ package server
 //@ assigns comp:E|Str, comp:C|Slice
 
 //@ func (*Server).Keys
-//@ requires {C18} srvOK(server) && conn != nil
+//@ requires {C18} storeOK(server) && conn != nil
 //@ assigns sm_dom[&server.Databases.Map], sm_val[&server.Databases.Map], comp:E|Str, comp:C|Slice
-//@ ensures {C18} srvOK(server)
+//@ ensures {C18} storeOK(server)
 //@ ensures {C17} ascii(pattern) ==> err == nil
 //@ ensures {C17} err == nil ==> result0 != nil && result0.Type == proto.ArrayMessage && result0.array != nil
 //@ ensures {C17} err == nil ==> forall j int :: 0 <= j && j < len(result0.array.msgs) ==> result0.array.msgs[j] != nil && result0.array.msgs[j].Type == proto.BulkMessage && result0.array.msgs[j].bytes != nil && globMatch(pattern, string(result0.array.msgs[j].bytes))
@@ -105,10 +105,10 @@ package server
 //@   invariant forall j int :: 0 <= j && j < len(matchKeys) ==> globMatch(pattern, matchKeys[j])
 
 //@ func (*Server).Scan
-//@ requires {C18} srvOK(server) && conn != nil
+//@ requires {C18} storeOK(server) && conn != nil
 //@ requires {C17} opt.MatchPattern != nil && isGlob(opt.MatchPattern)
 //@ assigns sm_dom[&server.Databases.Map], sm_val[&server.Databases.Map], comp:E|Str, comp:C|Slice
-//@ ensures {C18} srvOK(server)
+//@ ensures {C18} storeOK(server)
 //@ ensures {C17} err == nil && result0 != nil && result0.Type == proto.ArrayMessage && result0.array != nil && len(result0.array.msgs) == 2
 //@ ensures {C17} result0.array.msgs[1] != nil && result0.array.msgs[1].Type == proto.ArrayMessage && result0.array.msgs[1].array != nil
 //@ ensures {C17} forall j int :: 0 <= j && j < len(result0.array.msgs[1].array.msgs) ==> result0.array.msgs[1].array.msgs[j] != nil && result0.array.msgs[1].array.msgs[j].bytes != nil && globMatch(glob_of[opt.MatchPattern], string(result0.array.msgs[1].array.msgs[j].bytes))
